@@ -74,6 +74,8 @@ HARNESSES = {
     # the readout times themselves are swept (a key that addresses the observation, not the processor)
     "rtimes3":   dict(pipe="timed", mode="product", rtimes=[[1.0], [2.0], [4.0]], steps=1, seed=None, hooks=True),
     "rtimes3n":  dict(pipe="timed", mode="product", rtimes=[[1.0], [2.0], [4.0]], steps=1, seed=5, hooks=True),
+    # ... with schedules of two readouts each (free-running part only; see known finding F07-dask-readout-schedules)
+    "rtimes2s":  dict(pipe="timed2", mode="product", rtimes=[[1.0, 2.0], [0.5, 3.0]], steps=2, seed=None, hooks=False),
     "files2x3":  dict(pipe="det", mode="product", a=[1, 2], b=[10, 20, 30], steps=1, seed=None, hooks=False, outputs=True),
     "files3x2":  dict(pipe="det", mode="product", a=[1, 2, 3], b=[10, 20], steps=1, seed=None, hooks=False, outputs=True),
     # two swept arguments with the same short name ('a' of two models) around a uniquely named one
@@ -149,7 +151,7 @@ def build(h, with_dask, tmp):
                   "charge_generation": [("vp.cprobes.enc", "p2", {"slot": 1, "a": 0.75, "b": 0.5, "v": [2.0]})]}
         ka, kb = "pipeline.photon_collection.p1.arguments.a", "pipeline.photon_collection.p1.arguments.b"
         kc = "pipeline.charge_generation.p2.arguments.a"
-    elif h["pipe"] == "timed":
+    elif h["pipe"] in ("timed", "timed2"):
         groups = {"charge_collection": [("props.c07_parallel.timed", "tm", {"a": 3.0 + s, "noise": h["seed"] is not None})]}
         ka = kb = None
     pipe = mk.pipeline(groups)
@@ -394,7 +396,7 @@ def shards(tier, seed):
         nsplit = 1 if bound == 0 else (6 if tier == "quick" else 14)
         for i in range(nsplit):
             out.append({"part": "sched", "h": hname, "k": k, "bound": bound, "i": i, "of": nsplit, "seed": seed})
-    for hname in ("det3", "state3", "seq", "custom3", "noisy3", "mseed3", "rtimes3n", "collide", "enflag", "enstruct", "wdfile"):
+    for hname in ("det3", "state3", "seq", "custom3", "noisy3", "mseed3", "rtimes3n", "collide", "enflag", "enstruct", "wdfile", "rtimes2s"):
         out.append({"part": "free", "h": hname, "seed": seed, "tier": tier})
     out.append({"part": "calib", "seed": seed, "tier": tier})
     for name in BFE:
